@@ -119,3 +119,31 @@ def un_contract(c) -> dict:
 def mk_key(t: dict):
     """pacti's term equality: same variable set, equal coefficients, equal constant (zeros dropped)"""
     return (tuple(sorted((v, float(c)) for v, c in t["c"].items() if c != 0)), float(t["k"]))
+
+
+# ------------------------------------------------------------------------------------------------------
+# bounded-exhaustive grids (thorough tiers)
+
+
+def grid_rows(vs=("a", "b"), coefs=(-1, 0, 1), consts=(-1, 0, 1)) -> List[dict]:
+    """every row over `vs` with coefficients in `coefs` (not all zero) and a constant in `consts`"""
+    import itertools
+
+    rows = []
+    for cs in itertools.product(coefs, repeat=len(vs)):
+        if not any(cs):
+            continue
+        for k in consts:
+            rows.append({"c": {v: float(c) for v, c in zip(vs, cs) if c != 0}, "k": float(k)})
+    return rows
+
+
+def grid_lists(rows: List[dict], maxlen: int = 2) -> List[List[dict]]:
+    """every ordered list of 1..maxlen rows"""
+    import itertools
+
+    out = []
+    for n in range(1, maxlen + 1):
+        for combo in itertools.product(rows, repeat=n):
+            out.append([dict(c=dict(t["c"]), k=t["k"]) for t in combo])
+    return out
